@@ -451,6 +451,8 @@ def execute(ctx, plan, prop):
     for d in devices:
         if d.name in broken:
             continue
+        if d.name in world.uncountable_devs:
+            continue
         if d.balls != world.count(d.name):
             viol("rest_device_count", d.name, "at rest %s.balls=%d but %d ball(s) are physically in it; world=%r"
                  % (d.name, d.balls, world.count(d.name), world.summary()))
